@@ -26,6 +26,7 @@ type mismatch struct {
 
 type progEval struct {
 	NeoErr  string // neo-go refused the program
+	Malformed string // ... because the bytecode it had emitted does not pass its own verification (not a restriction of the dialect)
 	GoErr   string // reference toolchain refused the program
 	Calls   int
 	Big     int // calls excluded because a value beyond 64 bits appeared in the VM
@@ -66,6 +67,7 @@ func evalProg(p *Prog, goAlways bool) *progEval {
 	tNeo.Add(int(time.Since(t0).Milliseconds()))
 	if err != nil {
 		ev.NeoErr = err.Error()
+		ev.Malformed = malformed(ev.NeoErr)
 		if goAlways {
 			if _, gerr := goSide(dir, p); gerr != nil {
 				ev.GoErr = gerr.Error()
@@ -143,6 +145,19 @@ func evalProg(p *Prog, goAlways bool) *progEval {
 		}
 	}
 	return ev
+}
+
+// malformed recognises the errors of the compiler's final verification of the
+// script it has emitted (scparser.IsScriptCorrect, label resolution): the
+// program was translated, and the translation is not well-formed bytecode.
+func malformed(neoErr string) string {
+	for _, m := range []string{"invalid offset", "some jumps are done to wrong offsets", "some methods point to wrong offsets", "incorrect opcode",
+		"invalid label target", "unexpected label number", "label offset is too big", "parameter length", "failed to read instruction parameter"} {
+		if i := strings.Index(neoErr, m); i >= 0 {
+			return trunc(neoErr[i:], 120)
+		}
+	}
+	return ""
 }
 
 func resultClass(out string) string {
